@@ -23,6 +23,7 @@ import (
 func init() {
 	vRegister("c12_adversary", c12Adversary)
 	vRegister("c12_streams", c12Streams)
+	vRegister("c12_scanners", c12Scanners)
 }
 
 func c12Bases(seed int64, thorough bool) []*e2eCase {
@@ -433,6 +434,90 @@ func c12Streams(d *vCtx) error {
 				h.Slow = true
 			}
 			if h.Panic != "" || h.Slow {
+				hits = append(hits, h)
+			}
+			d.add("streams", 1)
+		}
+		d.add("panics", len(hits))
+		return vWriteJSON(d.path("hits.json"), hits)
+	})
+}
+
+// ---------------------------------------------------------------- scanners
+// c12_scanners: the scanners the wrapper runs over terminal output and typed input -- trigger detection
+// (client and relay flavour), zmodem headers, OSC 52 clipboard sequences (with their state across
+// reads), dragged paths -- fed streams of their own vocabulary cut into reads at every kind of place.
+// Crash-only oracle (they run in goroutines without recovery in the real wrapper).
+func c12Scanners(d *vCtx) error {
+	n := d.pInt("streams", 20000)
+	shards := d.pInt("shards", 16)
+	return vShards(d, shards, func(si, ns int) error {
+		tmp, err := os.MkdirTemp("", "c12scan-")
+		if err != nil {
+			return err
+		}
+		defer os.RemoveAll(tmp)
+		_ = os.WriteFile(tmp+"/a b.txt", []byte("x"), 0644)
+		_ = os.Mkdir(tmp+"/dir", 0755)
+		pieces := []string{"\x1b]52;", "\x1b]52;c;", "\x1b]52;p;", "\x1b]52;;", "c", "p", ";", "QUJD", "QUJDRA==", "!!!", "\x07", "\x1b\\", "\x1b", "]", "52", "?",
+			"**\x18B00", "**\x18B0100000023be50\r\x8a\x11", "**\x18B0800000000022d\r\x8a", "rz\r", "\x18\x18\x18\x18\x18", "\x08\x08\x08\x08\x08", "cannot open ", "B00", "*", "\x18",
+			"\x1b7\x07::TRZSZ:TRANSFER:R:1.1.0:1234567890100:0\r\n", "::TRZSZ:TRANSFER:", "S:", "R:", "D:", "1.1.0", ":", "1234567890120", ":0", ":50000", "#R", "\r\n", "\n", "\r",
+			"%output %1 ", "%extended-output %0 5 : ", "\x1bP=1s\x1b\\", "Saved", "Cancelled", "#CFG:", "TRZSZGO",
+			tmp + "/a b.txt", "'" + tmp + "/a b.txt'", "\"" + tmp + "/dir\"", tmp + "/dir ", "/nonexistent/x", "C:\\Users\\x\\a.txt", "\x1b[200~", "\x1b[201~", "'", "\"", "\\ ", " ", "~", "/",
+			"A", "z", "0", "\x00", "\xff", "\xee"}
+		type hit struct {
+			Scanner string `json:"scanner"`
+			Stream  string `json:"stream"`
+			Chunks  []int  `json:"chunks"`
+			Panic   string `json:"panic"`
+		}
+		var hits []hit
+		for i := si; i < n; i += ns {
+			rng := d.rng(int64(800000 + i))
+			var b []byte
+			for k := 1 + rng.Intn(16); k > 0; k-- {
+				if rng.Intn(14) == 0 {
+					b = append(b, byte(rng.Intn(256)))
+				} else {
+					b = append(b, pieces[rng.Intn(len(pieces))]...)
+				}
+			}
+			var chunks [][]byte
+			var sizes []int
+			for rest := b; len(rest) > 0; {
+				k := 1 + rng.Intn(len(rest))
+				if rng.Intn(2) == 0 && k > 2 {
+					k = 1 + rng.Intn(2)
+				}
+				chunks = append(chunks, append([]byte(nil), rest[:k]...))
+				sizes = append(sizes, k)
+				rest = rest[k:]
+			}
+			scanner := []string{"osc52", "zmodem", "trigger", "trigger-relay", "drag"}[i%5]
+			h := hit{Scanner: scanner, Stream: strconv.QuoteToASCII(string(b)), Chunks: sizes}
+			func() {
+				defer func() {
+					if r := recover(); r != nil {
+						h.Panic = fmt.Sprint(r)
+					}
+				}()
+				sink := &e2eSink{}
+				f := &TrzszFilter{clientOut: sink, serverIn: e2eWC{sink}, options: TrzszOptions{EnableOSC52: true, EnableZmodem: true, DetectDragFile: true}}
+				det := newTrzszDetector(scanner == "trigger-relay", scanner == "trigger-relay")
+				for _, c := range chunks {
+					switch scanner {
+					case "osc52":
+						f.detectOSC52(c)
+					case "zmodem":
+						_ = detectZmodem(c)
+					case "trigger", "trigger-relay":
+						_, _ = det.detectTrzsz(c, rng.Intn(2) == 0)
+					case "drag":
+						_, _, _, _ = detectDragFiles(c)
+					}
+				}
+			}()
+			if h.Panic != "" {
 				hits = append(hits, h)
 			}
 			d.add("streams", 1)
